@@ -850,7 +850,7 @@ func (l *LineWrapper) WrapParagraph(config WrapConfig, maxWidth int, paragraph [
 				// as for the first run of the lines built by [WrapNextLine]
 				firstRun.trimStartLetterSpacing()
 				firstRun.RecomputeAdvance()
-				if firstRun.Advance.Ceil() <= maxWidth {
+				if lineLength(firstRun.Advance) <= maxWidth {
 					lines := l.scratch.singleRunParagraph(firstRun)
 					// as for the lines built by [WrapNextLine]
 					computeBidiOrdering(config.Direction, lines[0])
@@ -946,6 +946,15 @@ func (l *LineWrapper) fillUntil(runs RunIterator, option breakOption) {
 
 		currRunIndex, run, more = runs.Peek()
 	}
+}
+
+// lineLength returns the length in pixels taken on a line by the given advance,
+// which is negative for vertical text.
+func lineLength(advance fixed.Int26_6) int {
+	if advance < 0 {
+		advance = -advance
+	}
+	return advance.Ceil()
 }
 
 // lineConfig tracks settings for line wrapping a single line of text.
@@ -1085,7 +1094,7 @@ func (l *LineWrapper) WrapNextLine(maxWidth int) (out WrappedLine, done bool) {
 	config := lineConfig{
 		truncating:        l.config.TruncateAfterLines == 1,
 		maxWidth:          maxWidth,
-		truncatedMaxWidth: maxWidth - l.config.Truncator.Advance.Ceil(),
+		truncatedMaxWidth: maxWidth - lineLength(l.config.Truncator.Advance),
 	}
 	done = l.wrapNextLine(config)
 	finalLine := l.scratch.finalizeBest()
@@ -1278,7 +1287,7 @@ func (l *LineWrapper) processBreakOption(option breakOption, config lineConfig) 
 	}
 	isFirstInLine := l.scratch.candidateLen() == 0
 	candidateRun := cutRun(run, l.mapper.mapping, l.lineStartRune, option.breakAtRune, isFirstInLine)
-	candidateLineWidth := (candidateRun.advanceSpaceAware(l.config.Direction) + l.scratch.candidateAdvance()).Ceil()
+	candidateLineWidth := lineLength(candidateRun.advanceSpaceAware(l.config.Direction) + l.scratch.candidateAdvance())
 	if candidateLineWidth > config.maxWidth {
 		// The run doesn't fit on the line.
 		if !l.scratch.hasBest() {
